@@ -424,7 +424,10 @@ pub fn run(prop: &str, seed: u64, n: usize, outdir: &str, _corpus: Option<&str>)
         }
         // known-finding class K3 applies only when bigram.cost really lists the bare string '*' as a feature
         let star_listed = String::from_utf8_lossy(&f1.cost).lines().any(|l| l.split('\t').next().map_or(false, |f| f.split('/').any(|x| x == "*")));
-        flags[0].1 = (c.bare_right && star_listed) as u8;
+        // ... or when a bare template expands to the EMPTY string for a real word (a seed row with an empty feature
+        // cell): bigram.left/right then list '' for a non-zero id, the marker of the BOS/EOS row (K3-empty-expansion)
+        let empty_listed = [&f1.left, &f1.right].iter().any(|b| String::from_utf8_lossy(b).lines().any(|l| l.split_once('\t').map_or(false, |x| csv_cells(x.1).iter().any(|cell| cell.is_empty()))));
+        flags[0].1 = (c.bare_right && (star_listed || empty_listed)) as u8;
         // ---- C14
         let lex_out = String::from_utf8_lossy(&f1.lex).to_string();
         let seed_rows: Vec<_> = c.lex.lines().map(|l| split_row(l)).collect();
